@@ -13,4 +13,5 @@ class Check(PropertyCheck):
     def families(self, rng, tier):
         return [("world.general", fam_world.general_histories(rng.sub("general_histories"), tier)), ("world.extreme", fam_world.extreme_histories(rng.sub("extreme_histories"), tier)),
                 ("world.lp_handover", fam_world.lp_handover_histories(rng.sub("lp_handover_histories"), tier)),
-                ("world.counterfeit_lp", fam_world.counterfeit_lp_histories(rng.sub("counterfeit_lp"), tier))]
+                ("world.counterfeit_lp", fam_world.counterfeit_lp_histories(rng.sub("counterfeit_lp"), tier)),
+                ("world.dust_withdrawal", fam_world.dust_withdrawal_histories(rng.sub("dust_withdrawal"), tier))]
